@@ -32,3 +32,5 @@ import TFV.Properties.Src.MemoryUpdate
 #print axioms TFV.Properties.Src.MemoryUpdate.C15_src_lehmer_mean_weighted
 #print axioms TFV.Properties.Src.MemoryUpdate.C15_src_lehmer_mean_plain
 #print axioms TFV.Properties.Src.MemoryUpdate.C15_src_shaga_update_u_composed
+#print axioms TFV.Properties.Src.MemoryUpdate.C15_src_shaga_randn
+#print axioms TFV.Properties.Src.MemoryUpdate.C15_src_shaga_randn_range
